@@ -60,6 +60,10 @@ def run(ctx: Ctx):
         if k % 4 == 1:
             sc["reference_s"] = sc["start"] - 3600
             sc["reference"] = scen.lab.tstr(sc["reference_s"])
+        if k % 4 == 3:
+            # a reference time decades away (1970-01-01T00:00:07): record times near 1e9 s, not multiples of 64 s
+            sc["reference_s"] = -scen.lab.T0_S + 7
+            sc["reference"] = scen.lab.tstr(sc["reference_s"])
     got = pmap(scen.run_real, cases)
     want = driver([scen.request(sc) for sc in cases])
     for sc, g, w in zip(cases, got, want):
